@@ -88,7 +88,7 @@ def data_wire(comps, content=b'', freshness=None, sig='digest', content_type=Non
 
 
 def interest_wire(comps, can_be_prefix=False, must_be_fresh=False, nonce=None, lifetime=None, app_param=None,
-                  bad_digest=False, no_digest=False, sig_info=None, sig_value=None) -> bytes:
+                  bad_digest=False, no_digest=False, sig_info=None, sig_value=None, omit_sig_value=False) -> bytes:
     """Reference-encoded Interest.  With app_param / signature a ParametersSha256 component is appended."""
     mid = b''
     if can_be_prefix:
@@ -107,7 +107,8 @@ def interest_wire(comps, can_be_prefix=False, must_be_fresh=False, nonce=None, l
         sv = sig_value
         if sv is None:  # DigestSha256 over name + params + siginfo
             sv = hashlib.sha256(b''.join(comps) + tail).digest()
-        tail += T.enc_tlv(0x2e, sv)
+        if not omit_sig_value:
+            tail += T.enc_tlv(0x2e, sv)
     comps = list(comps)
     if tail and not no_digest:
         d = hashlib.sha256(tail).digest()
